@@ -89,7 +89,7 @@ def strategy(tier):
 
 
 def exhaustive(tier):
-    yield ("deep chain of nested prefix keys (as deep as set() can build): proofs for stored, prefix and absent keys",
+    yield ("deep chain of nested prefix keys (200 levels, or as deep as set() can build if that is less): proofs for stored, prefix and absent keys",
            iter([{"deep": 0}, {"deep": 1}]))
 
 
